@@ -71,11 +71,47 @@ def base_type_map(names):
 
 
 def rothash_consts():
+    """shifts and constant of `rothash` (include/fix8/f8utils.hpp).  Read from the source text when it has the usual shape; otherwise (the
+    body was rewritten) recovered from the COMPILED function: rothash is affine over GF(2), so its value at 0 and at one basis vector give
+    the constant and the three shifts, and the recovered formula is then compared with the compiled function on 20000 random arguments."""
     s = _src('include/fix8/f8utils.hpp')
-    m = re.search(r'inline unsigned rothash\(unsigned result, unsigned value\)\s*\{[^}]*?return result \^= \(result >> (\d+)\) \^ \(result << (\d+)\) \^ \(result << (\d+)\) \^ value \^ (0x[0-9a-fA-F]+);', s, re.S)
-    if not m:
-        raise FactError('rothash body not recognised in include/fix8/f8utils.hpp')
-    return int(m.group(1)), int(m.group(2)), int(m.group(3)), int(m.group(4), 16)
+    m = re.search(r'inline unsigned rothash\(unsigned result, unsigned value\)\s*\{[^}]*?result \^= \(result >> (\d+)\) \^ \(result << (\d+)\) \^ \(result << (\d+)\) \^ value \^ (0x[0-9a-fA-F]+);', s, re.S)
+    if m:
+        return int(m.group(1)), int(m.group(2)), int(m.group(3)), int(m.group(4), 16)
+    import vlib, os, random, subprocess, tempfile
+    d = tempfile.mkdtemp(prefix='rothash', dir=vlib.CACHE)
+    try:
+        src = os.path.join(d, 'p.cpp')
+        open(src, 'w').write('#include <cstdio>\n#include <cstdlib>\n#include <fix8/f8includes.hpp>\nint main(int c, char **v) { for (int i = 1; i + 1 < c; i += 2) '
+                             'std::printf("%u\\n", FIX8::rothash(unsigned(std::strtoul(v[i], 0, 10)), unsigned(std::strtoul(v[i + 1], 0, 10)))); return 0; }\n')
+        exe = os.path.join(d, 'p')
+        rc = subprocess.run(['g++', '-std=c++11', '-w', '-DHAVE_CONFIG_H', '-I' + os.path.join(vlib.REPO, 'include'), '-I' + vlib.REPO, src, '-o', exe, '-lPocoNet', '-lPocoFoundation', '-lpthread'],
+                            capture_output=True, text=True)
+        if rc.returncode != 0:
+            raise FactError('rothash body not recognised in include/fix8/f8utils.hpp and the probe does not compile: ' + rc.stderr[-300:])
+
+        def call(pairs):
+            o = subprocess.run([exe] + [str(x) for p in pairs for x in p], capture_output=True, text=True).stdout.split()
+            return [int(x) for x in o]
+        c, b16 = call([(0, 0), (1 << 16, 0)])
+        bits = [k for k in range(32) if ((b16 ^ c ^ (1 << 16)) >> k) & 1]
+        lo = [16 - k for k in bits if k < 16]
+        hi = sorted(k - 16 for k in bits if k > 16)
+        if len(lo) != 1 or len(hi) != 2:
+            raise FactError('rothash is no longer of the form r ^ (r >> a) ^ (r << b) ^ (r << c) ^ v ^ K (probe: K=%#x, basis image %#x)' % (c, b16))
+        a, b1, b2 = lo[0], hi[0], hi[1]
+        rng = random.Random(7)
+        pairs = [(rng.getrandbits(32), rng.getrandbits(32)) for _ in range(20000)]
+        got = []
+        for i in range(0, len(pairs), 2000):
+            got += call(pairs[i:i + 2000])
+        for (r, v), g in zip(pairs, got):
+            if (r ^ (r >> a) ^ ((r << b1) & 0xffffffff) ^ ((r << b2) & 0xffffffff) ^ v ^ c) != g:
+                raise FactError('rothash is no longer of the form r ^ (r >> %d) ^ (r << %d) ^ (r << %d) ^ v ^ %#x: differs at (%d, %d)' % (a, b1, b2, c, r, v))
+        return a, b1, b2, c
+    finally:
+        import shutil
+        shutil.rmtree(d, ignore_errors=True)
 
 
 def common_tags():
